@@ -6,6 +6,8 @@ INVARIANT RefStable
 INVARIANT Refuses
 INVARIANT Emit
 CONSTANTS
+  MinN = 1
+  MinRules = 0
   MaxN = 4
   PoolSel = "clash"
   Codes = {}
@@ -14,7 +16,7 @@ CONSTANTS
   LigLens = {2}
   Kinds = {"cff"}
   CmapFormats = {"4"}
-  LigFirst = -1
+  LigFirst = 0
   TextSel = "A"
   Flags = FALSE
   Quiet = TRUE
